@@ -9,6 +9,9 @@ assert sh("git -C /repo status --porcelain").stdout.strip() == "", "/repo not cl
 r = sh(f"git -C /repo apply {patch}")
 if r.returncode != 0:
     print("patch does not apply:", r.stderr); sys.exit(2)
+import shutil, tempfile
+_keep = tempfile.mkdtemp(dir="/root")
+shutil.copytree("/verif/evidence", os.path.join(_keep, "evidence"))     # a seeded run must not leave its evidence behind
 try:
     demo = sh(f"cd /repo && PYTHONPATH=/repo/src /venv/bin/python {os.path.join(seed,'demo.py')}")
     t = time.time()
@@ -18,6 +21,9 @@ finally:
     sh("git -C /repo checkout -- .")
     # the generated Lean tables were regenerated from the patched tree by the check: bring them back to the tree as it is now
     sh("cd /verif/harness && /venv/bin/python regen_all.py")
+    shutil.rmtree("/verif/evidence", ignore_errors=True)
+    shutil.copytree(os.path.join(_keep, "evidence"), "/verif/evidence")
+    shutil.rmtree(_keep, ignore_errors=True)
 demo0 = sh(f"cd /repo && PYTHONPATH=/repo/src /venv/bin/python {os.path.join(seed,'demo.py')}")
 lines = [l for l in chk.stdout.splitlines() if l.startswith("VIOLATION") or l.startswith("[")]
 print(json.dumps({"seed": seed, "property": pid, "tier": tier, "demo_exit_patched": demo.returncode, "demo_exit_clean": demo0.returncode,
